@@ -8623,9 +8623,19 @@ class NetCDFRead(IORead):
             attr = "node_coordinates"
             ncvar = parsed_node_coordinates[0]
 
+        # The dimensions of the parent variable. A domain variable
+        # (CF>=1.9) has no netCDF dimensions of its own: they are named
+        # by its 'dimensions' attribute.
+        parent_dimensions = tuple(variable_dimensions[field_ncvar])
+        domain_dimensions = g["variable_attributes"][field_ncvar].get(
+            "dimensions"
+        )
+        if isinstance(domain_dimensions, str):
+            parent_dimensions += tuple(domain_dimensions.split())
+
         if ok and (
             len(geometry_dimensions) != 1
-            or geometry_dimensions[0] not in variable_dimensions[field_ncvar]
+            or geometry_dimensions[0] not in parent_dimensions
         ):
             incorrect_dimensions(variable_type, attr, ncvar)
             ok = False
